@@ -2308,6 +2308,54 @@ def functions():
         return translate_fn(src, "validate", "Delta", spec, "g_delta_validate", "(d : delta digest)", "bool", self_type="Delta")
     out.append(("delta_validate", "src/delta.rs Delta::validate", "digest_only", t_dvalidate))
 
+    # the three `push_*` methods edit the last operation through `self.ops.last_mut()`: each body is checked LITERALLY against
+    # the reviewed text below and then read as a function on the operation list, NEWEST FIRST (as Model/Delta.v keeps it)
+    PUSH_BODIES = {
+        "push_copy": ("""{ debug_assert!(len > 0, "copy operation must have non-zero length");
+            if let Some(DeltaOp::Copy { offset: prev_offset, len: prev_len, }) = self.ops.last_mut() {
+                if *prev_offset + u64::from(*prev_len) == offset {
+                    if let Some(new_len) = prev_len.checked_add(len) { *prev_len = new_len; return; }
+                }
+            }
+            self.ops.push(DeltaOp::copy(offset, len)); }""", ["self", "offset", "len"],
+            "Definition g_push_copy (ops : list dop) (offset len : Z) : list dop :=\n"
+            "  match ops with\n  | Copy prev_offset prev_len :: r =>\n"
+            "      if prev_offset + prev_len =? offset\n"
+            "      then match (if prev_len + len <=? 4294967295 then Some (prev_len + len) else None) with   (* u32::checked_add *)\n"
+            "           | Some new_len => Copy prev_offset new_len :: r\n           | None => Copy offset len :: ops\n           end\n"
+            "      else Copy offset len :: ops\n  | _ => Copy offset len :: ops\n  end."),
+        "push_literal": ("""{ if data.is_empty() { return; }
+            if let Some(DeltaOp::Literal(prev_data)) = self.ops.last_mut() { prev_data.extend_from_slice(data); return; }
+            self.ops.push(DeltaOp::literal_from_slice(data)); }""", ["self", "data"],
+            "Definition g_push_literal (ops : list dop) (data : list Z) : list dop :=\n"
+            "  match data with\n  | [] => ops\n  | _ => match ops with Lit prev_data :: r => Lit (prev_data ++ data) :: r | _ => Lit data :: ops end\n  end."),
+        "push_literal_byte": ("""{ if let Some(DeltaOp::Literal(prev_data)) = self.ops.last_mut() { prev_data.push(byte); return; }
+            self.ops.push(DeltaOp::literal(vec![byte])); }""", ["self", "byte"],
+            "Definition g_push_literal_byte (ops : list dop) (byte : Z) : list dop :=\n"
+            "  match ops with Lit prev_data :: r => Lit (prev_data ++ [byte]) :: r | _ => Lit [byte] :: ops end."),
+    }
+
+    def mk_push(fname):
+        def t():
+            src = read("src/delta.rs")
+            want_src, want_params, text = PUSH_BODIES[fname]
+            params, ret, body = R.find_fn(src, fname, "Delta")
+            norm = lambda x: json.loads(json.dumps(x))
+            if [n for n, _ in params] != want_params:
+                raise Unsupported("signature of Delta::%s is %s" % (fname, params))
+            if norm(body) != norm(R.Parser(R.tokenize(want_src)).block()):
+                raise Unsupported("Delta::%s is no longer the reviewed body (merge into the last operation when it is of the same kind%s, else push a new one)"
+                                  % (fname, " and contiguous, with u32::checked_add on the length" if fname == "push_copy" else ""))
+            for ctor, pat in (("copy", r"pub const fn copy\(offset: u64, len: u32\) -> Self \{\s*Self::Copy \{ offset, len \}\s*\}"),
+                              ("literal", r"pub fn literal\(data: Vec<u8>\) -> Self \{\s*Self::Literal\(data\)\s*\}"),
+                              ("literal_from_slice", r"pub fn literal_from_slice\(data: &\[u8\]\) -> Self \{\s*Self::Literal\(data\.to_vec\(\)\)\s*\}")):
+                if not re.search(pat, src):
+                    raise Unsupported("DeltaOp::%s is no longer the plain constructor" % ctor)
+            return text
+        return t
+    for fname in ("push_copy", "push_literal", "push_literal_byte"):
+        out.append(("delta_" + fname, "src/delta.rs Delta::" + fname, "digest_only", mk_push(fname)))
+
     PATCH_READ_BLOCK = """{
     basis.seek(SeekFrom::Start(*offset))?;
     let mut buffer = vec![0u8; *len as usize];
@@ -3156,7 +3204,7 @@ GROUPS = {
     "Protocol": ("Model.Checksum Model.Delta Model.Protocol", False, ["from_u8", "hvalidate"]),
     "ProtocolHeader": ("Model.Checksum Model.Delta Model.Bincode Model.Protocol Gen.ProtocolGen", "protocolheader", ["header_new", "header_encode", "header_decode", "header_read_from", "codec_read_message", "codec_write_message"]),
     "CliReaders": ("Model.Checksum Model.Delta Model.Protocol", "clireaders", ["validate_block_size", "run_patch", "run_delta"]),
-    "DeltaV": ("Model.Checksum Model.Delta", True, ["delta_validate"]),
+    "DeltaV": ("Model.Checksum Model.Delta", True, ["delta_validate", "delta_push_copy", "delta_push_literal", "delta_push_literal_byte"]),
     "SigTable": ("Model.Checksum Model.Delta", "sigtable", ["bsig_compute", "sig_generate", "table_from_signature", "table_find_match", "table_has_weak_match", "table_is_empty"]),
     "Scan": ("Model.Checksum Model.Delta Gen.SigTableGen", "scan", ["delta", "async_delta"]),
     "SyncFiles": ("Model.Checksum Model.Delta Gen.SigTableGen", "syncfiles", ["sync_files"]),
